@@ -10,6 +10,8 @@ for every worker of every pool:
 
 * every resident task placed with a non-batch strategy has a ledger entry that holds, per
   resource type, exactly the demand of that strategy (`resident_holds_demand_*`);
+* every live batch has one placeholder entry (whatever the number of members) that holds the
+  demand of a strategy with the batch's identity — the one that opened the batch;
 * per resource type, Σ demand of the strategies of the resident (non-batch) tasks + what the
   batch placeholders and the profiles hold = total − available, hence ≤ total (`demand_sum_*`:
   C01's statement with the *demands of the placed strategies* instead of the ledger's own sums).
@@ -24,10 +26,13 @@ def HoldsDemands (w : Worker) : Prop :=
     ∃ l, AList.get? w.res.allocs (.task t) = some l ∧ ∀ n, pairsByName l n = byName s.req n) ∧
   (∀ n, byName w.res.avail n + (taskDemand w.placed n + heldBy Comp.isBatch w.res.allocs n +
       heldBy Comp.isProfile w.res.allocs n) = byName w.res.total n) ∧
-  (∀ n, taskDemand w.placed n ≤ byName w.res.total n)
+  (∀ n, taskDemand w.placed n ≤ byName w.res.total n) ∧
+  (∀ sid ms, AList.get? w.batches sid = some ms → ∃ (g : Nat) (l : List (Res × Nat)) (s0 : Strategy),
+    AList.get? w.batchTask sid = some (.batch g) ∧ AList.get? w.res.allocs (.batch g) = some l ∧
+    s0.sid = sid ∧ s0.isBatch = true ∧ ∀ n, pairsByName l n = byName s0.req n)
 
-theorem holdsDemands_of_tok (w : Worker) (h : w.TOK) : HoldsDemands w :=
-  ⟨h.taskHeld, fun n => (h.demand_eq n).1, fun n => (h.demand_eq n).2⟩
+theorem holdsDemands_of_tok (w : Worker) (hl : w.LOK) : HoldsDemands w :=
+  ⟨hl.1.taskHeld, fun n => (hl.1.demand_eq n).1, fun n => (hl.1.demand_eq n).2, hl.2.batchHeld⟩
 
 /-- **Every resident holds the demand of the strategy it was placed with, and Σ demand of the
 resident strategies (+ batch placeholders + profiles) = total − available ≤ total — when the run
@@ -52,7 +57,7 @@ theorem resident_demands_at_loop_head (s0 : SimS) (k : Nat) (h : lwf0 s0 = true)
 resource type than the worker has. -/
 theorem resident_demand_le_total (s0 : SimS) (fuel : Nat) (h : lwf0 s0 = true) (hok : (simulate s0 fuel).1 = none) :
     ∀ p ∈ (simulate s0 fuel).2.pools.toList, ∀ w ∈ p.workers, ∀ n, taskDemand w.placed n ≤ byName w.res.total n :=
-  fun p hp w hw => (resident_demands_at_end s0 fuel h hok p hp w hw).2.2
+  fun p hp w hw => (resident_demands_at_end s0 fuel h hok p hp w hw).2.2.1
 
 /-- Non-vacuity of the hypothesis: the example world of `C01_Run` is well-formed for the ledger theorems. -/
 theorem exWorld_lwf : lwf0 exWorld = true := by
@@ -71,7 +76,7 @@ example :
     ¬ HoldsDemands { w1 with res := { w1.res with allocs := [(.task 7, [(⟨"GPU", some 1⟩, 2)])] } } := by
   intro st w1
   refine ⟨?_, by decide, ?_⟩
-  · exact holdsDemands_of_tok _ (Worker.lr_placeTask _ 7 _ (Worker.TOK.ofVec _ (by decide)) (by decide) (by decide))
+  · exact holdsDemands_of_tok _ (Worker.lk_placeTask _ 7 _ (Worker.LOK.ofVec _ (by decide)) (by decide) (by decide))
   · intro h
     obtain ⟨l, hl, hamt⟩ := h.1 7 st (by decide) rfl
     have hl' : l = [(⟨"GPU", some 1⟩, 2)] := by
